@@ -2,6 +2,7 @@ import Pyrtma.Proofs.DataLog
 import Pyrtma.Proofs.DataLogFmt
 import Pyrtma.Proofs.DataLogLive
 import Pyrtma.Proofs.DataLogFineMain
+import Pyrtma.Proofs.DataLogFineLive
 import Pyrtma.Proofs.DataLogFiles
 /-!
 # C17 — the data logger loses, duplicates and reorders nothing
@@ -214,6 +215,65 @@ theorem fine_stop_waits_only_for_writer (c : Fine.Cfg) (ops : List RecOp) (sched
   · exact Or.inl h
   · exact Or.inr ⟨h.1, h.2.1⟩
   · exact Or.inr ⟨h.1, by rw [h.2.1]; simp⟩
+
+/-! #### liveness at single-access granularity, file-system failures included -/
+
+/-- **The session ends, or hangs behind a dead writer — nothing else.**  For every configuration, every failure
+pattern, every operation list, after ANY schedule prefix of single accesses: continuing round-robin for
+`(11 n + 7) · #operations + 60 n + 10` rounds, either the session is over (`stop()` returned, or an exception
+reached the caller of `update` / `stop`), or the recording thread sits in the wait loop of `stop()` behind a writer
+that an exception has killed.  (Variant function `Proofs/DataLogFineLive.lean: mu`: no step of either thread
+increases it, every `R; W` round decreases it.) -/
+theorem fine_stop_terminates_or_hangs (c : Fine.Cfg) (ops : List RecOp) (sched : List Fine.Tid) (N : Nat)
+    (hN : (11 * c.n + 7) * ops.length + (60 * c.n + 10) ≤ N) :
+    (Fine.run c ops (sched ++ Fine.roundRobin N)).over = true ∨
+      (Fine.run c ops (sched ++ Fine.roundRobin N)).hung c = true := by
+  unfold Fine.run
+  rw [List.foldl_append]
+  apply Fine.rr_terminates (all := ops) N _ (Fine.foldl_inv sched _ (Fine.inv_init c ops))
+  have := Fine.foldl_mu_le (c := c) (all := ops) sched _ (Fine.inv_init c ops)
+  rw [Fine.mu_init] at this
+  omega
+
+/-- **`stop()` returns** when no file-system operation fails: the premise of `fine_no_loss_no_dup_no_reorder` is
+met by every fair run, at single-access granularity. -/
+theorem fine_stop_returns (c : Fine.Cfg) (hnf : ∀ k, c.fault k = false) (ops : List RecOp) (sched : List Fine.Tid)
+    (N : Nat) (hN : (11 * c.n + 7) * ops.length + (60 * c.n + 10) ≤ N) :
+    (Fine.run c ops (sched ++ Fine.roundRobin N)).rpc = .done := by
+  have hne := fine_writer_never_dies c hnf ops (sched ++ Fine.roundRobin N)
+  rcases fine_stop_terminates_or_hangs c ops sched N hN with h | h
+  · simp only [State.over, Bool.or_eq_true, beq_iff_eq] at h
+    rcases h with (h | h) | h
+    · exact h
+    · exact absurd h hne.2.1
+    · exact absurd h hne.2.2
+  · simp [State.hung, hne.1] at h
+
+/-- … and then every file of every data set is complete (no premise left but "no file-system failure"). -/
+theorem fine_complete_after_fair_run (c : Fine.Cfg) (hnf : ∀ k, c.fault k = false) (ops : List RecOp)
+    (sched : List Fine.Tid) (N : Nat) (hN : (11 * c.n + 7) * ops.length + (60 * c.n + 10) ≤ N) (i : Nat)
+    (hi : i < c.n) :
+    complete (accepted (c.sel i) false ops) ((Fine.run c ops (sched ++ Fine.roundRobin N)).ds i).fileLogs = true :=
+  fine_no_loss_no_dup_no_reorder c ops _ (fine_stop_returns c hnf ops sched N hN) i hi
+
+/-- **With the proposed patch `stop()` always terminates**, whatever fails and whenever: it returns or raises
+(the Spec clause `terminates` holds for every outcome).  Without the patch the same statement is false:
+`stop_hangs_after_writer_death`. -/
+theorem fine_stop_terminates_patched (c : Fine.Cfg) (ha : c.aliveCheck = true) (ops : List RecOp)
+    (sched : List Fine.Tid) (N : Nat) (hN : (11 * c.n + 7) * ops.length + (60 * c.n + 10) ≤ N) :
+    (Fine.run c ops (sched ++ Fine.roundRobin N)).over = true ∧
+      ∀ o, outcomeOf c (Fine.run c ops (sched ++ Fine.roundRobin N)) = some o → terminates o = true := by
+  have hnh : (Fine.run c ops (sched ++ Fine.roundRobin N)).hung c = false := by simp [State.hung, ha]
+  rcases fine_stop_terminates_or_hangs c ops sched N hN with h | h
+  · refine ⟨h, fun o ho => ?_⟩
+    unfold outcomeOf at ho
+    rw [hnh] at ho
+    split at ho
+    · cases ho; rfl
+    · split at ho
+      · cases ho; rfl
+      · simp at ho
+  · rw [hnh] at h; cases h
 
 /-! #### C17-F3: `stop()` hangs once the writer has died -/
 
